@@ -102,6 +102,8 @@ def build_system(spec):
     import flodym
 
     procs = flodym.make_processes(PROC_NAMES[: spec["nproc"]])
+    if spec.get("proc_order") == "reversed":  # a hand-built system: dict order differs from the order of the ids
+        procs = dict(reversed(list(procs.items())))
     flows, mflows = {}, []
     for k, fl in enumerate(spec["flows"]):
         src, dst, arr = fl[0], fl[1], fl[2]
@@ -324,6 +326,8 @@ def run_graphs(u, res):
             if zf and sc not in ([], stock_configs(u["nproc"])[1]):
                 continue
             spec = dict(nproc=u["nproc"], flows=[list(f) for f in flows], stocks=[list(s) for s in sc], zero_flows=zf)
+            if sc and not zf and (len(flows) + len(sc)) % 2 == 0:
+                spec["proc_order"] = "reversed"
             for probe in PROBES:
                 oc, f = run_graph_case(spec, probe)
                 if oc == "n/a":
@@ -338,8 +342,8 @@ def run_graphs(u, res):
 # ---- default-tolerance straddle on balanced systems -----------------------------------------------
 
 
-def run_straddle_case(spec, which, pos, factor, raise_error):
-    case = dict(kind="straddle", spec=spec, which=which, pos=pos, factor=factor, raise_error=raise_error)
+def run_straddle_case(spec, which, pos, factor, raise_error, zero_tol=False):
+    case = dict(kind="straddle", spec=spec, which=which, pos=pos, factor=factor, raise_error=raise_error, zero_tol=zero_tol)
 
     def fail(kind, what):
         return "fail", dict(case=case, tags=dict(kind=kind, probe="straddle", factor=factor), what=f"balanced system {spec}, {which} entry {pos} perturbed by {factor} x default tolerance: {what}")
@@ -351,9 +355,11 @@ def run_straddle_case(spec, which, pos, factor, raise_error):
     f.values[idx] = f.values[idx] + factor * tol
     if factor == 0.0:  # an exactly balanced system is within a tolerance of exactly zero
         got, info = verdict_call(mfa, 0.0, raise_error)
+    elif zero_tol:  # an explicit tolerance of 0 is a tolerance of 0 (not "use the default"): any imbalance fails
+        got, info = verdict_call(mfa, 0.0 if pos == 0 else 0, raise_error)
     else:
         got, info = verdict_call(mfa, None, raise_error)
-    want = expect_verdict(abs(factor) > 1, raise_error)
+    want = expect_verdict(abs(factor) > 1 or (zero_tol and factor != 0.0), raise_error)
     if got != want:
         return fail("verdict", f"-> {got} ({str(info)[:160]}), expected {want} (default tolerance {tol})")
     return "straddle-" + want, None
@@ -416,8 +422,10 @@ def run_straddle(u, res):
             spec = dict(nproc=u["nproc"], flows=flows, stocks=sc, stock_level=lvl)
             for factor in (0.25, 4.0, -0.25, -4.0, 0.0):
                 for raise_error in (True, False):
-                    for pos in (0, 3):
-                        oc, f = run_straddle_case(spec, "F1", pos, factor, raise_error)
+                    for pos, ztol in ((0, False), (3, False), (0, True), (3, True)):
+                        if ztol and abs(factor) != 0.25:
+                            continue
+                        oc, f = run_straddle_case(spec, "F1", pos, factor, raise_error, ztol)
                         res["evals"] += 1
                         res["nontrivial"] += 1
                         res["outcomes"][oc] = res["outcomes"].get(oc, 0) + 1
@@ -541,7 +549,7 @@ def replay(case):
     elif case["kind"] == "sequence":
         oc, f = run_sequence_case(case["spec"], case["stages"], case["raise_error"])
     elif case["kind"] == "straddle":
-        oc, f = run_straddle_case(case["spec"], case["which"], case["pos"], case["factor"], case["raise_error"])
+        oc, f = run_straddle_case(case["spec"], case["which"], case["pos"], case["factor"], case["raise_error"], case.get("zero_tol", False))
     else:
         oc, f = run_flows_case(case["spec"], case["states"], case["exceptions"], case["raise_error"], case["verbose"])
     return [f] if f else []
